@@ -39,7 +39,8 @@ CONFIG = {
              "delete span, delete token, insert char, replace char, insert keyword, duplicate span) of such documents; "
              "(soup) token sequences over each format's alphabet; (deep) Newick nesting depths 10..20000; (valid) the "
              "unmodified documents, which must parse on every route and deliver the abstract content they were "
-             "written from.  Each input is read through every applicable route under a step budget of 200000 + "
+             "written from; (atheris, thorough tier only) a coverage-guided campaign over bytes -> (reader variant, "
+             "text) seeded with valid documents, same oracle.  Each input is read through every applicable route under a step budget of 200000 + "
              "3000*len(text) events.  Non-trivial = non-empty input that is not the unmodified valid document; "
              "distinct = (schema, reader kwargs, text).  Histogram = outcome x schema (x route for violations)."),
     "exhaustive": {"quick": True, "thorough": True},
@@ -62,7 +63,8 @@ CONFIG = {
 
 TOTALS = {
     "quick": {"prefix_docs": 56, "max_len": 400, "valid": 800, "edit": 3200, "soup": 1600},
-    "thorough": {"prefix_docs": 480, "max_len": 800, "valid": 16000, "edit": 100000, "soup": 40000},
+    "thorough": {"prefix_docs": 480, "max_len": 800, "valid": 16000, "edit": 100000, "soup": 40000,
+                 "atheris_runs": 240000},
 }
 
 MATRIX_CLASS = {"dna": "DnaCharacterMatrix", "rna": "RnaCharacterMatrix", "protein": "ProteinCharacterMatrix",
@@ -663,6 +665,99 @@ def soup_cases():
 DEEP_DEPTHS = (10, 100, 400, 900, 1500, 2500, 5000, 20000)
 
 
+def run_atheris(ctx, runs, seed_docs):
+    """Thorough tier: coverage-guided campaign in a child process (fuzz/c20_atheris.py) sharing run_text as oracle.
+    Every unknown violation it reports is re-executed here through the `soup` sub-check, so replay files and the
+    verdict never depend on Atheris."""
+    import json
+    import os
+    import shutil
+    import subprocess
+    import tempfile
+    import time
+    t0 = time.time()
+    tmp = tempfile.mkdtemp(prefix="c20_atheris_")
+    try:
+        corpus = os.path.join(tmp, "corpus")
+        os.makedirs(corpus)
+        for i, d in enumerate(seed_docs):
+            variant = _atheris_variant(d["schema"], d["kwargs"])
+            with open(os.path.join(corpus, "seed%03d" % i), "wb") as f:
+                f.write(bytes([variant]) + d["text"].encode("utf8"))
+        with open(os.path.join(corpus, "empty"), "wb") as f:
+            f.write(b"")
+        words = sorted(set(w for ws in docs.KEYWORDS.values() for w in ws if w.strip() and "\n" not in w))
+        dict_path = os.path.join(tmp, "dict.txt")
+        with open(dict_path, "w") as f:
+            for w in words:
+                f.write('"%s"\n' % w.replace("\\", "\\\\").replace('"', '\\"'))
+        out = os.path.join(tmp, "violations.jsonl")
+        env = dict(os.environ)
+        env["VERIF_REPO_SRC"] = runner.REPO_SRC
+        env["PYTHONPATH"] = os.pathsep.join([runner.REPO_SRC, runner.VERIF, os.path.join(runner.VERIF, ".deps")])
+        cmd = [runner.PY, os.path.join(runner.VERIF, "fuzz", "c20_atheris.py"), "--out", out, "--corpus", corpus, "--",
+               "-runs=%d" % runs, "-seed=%d" % (ctx.seed * 1000 + ctx.shard + 1), "-max_len=800", "-timeout=300",
+               "-dict=" + dict_path, "-artifact_prefix=" + tmp + os.sep, "-print_final_stats=0", "-verbosity=0"]
+        remaining = None if ctx.deadline is None else max(30, ctx.deadline - time.time())
+        try:
+            p = subprocess.run(cmd, env=env, cwd=tmp, stdout=subprocess.PIPE, stderr=subprocess.STDOUT, text=True,
+                               timeout=remaining)
+            rc, log = p.returncode, p.stdout
+        except subprocess.TimeoutExpired as e:
+            rc, log = "timeout", (e.stdout or b"").decode("utf8", "replace") if isinstance(e.stdout, bytes) else (e.stdout or "")
+            ctx.skipped_by_time += 1
+        stats = {}
+        if os.path.exists(out + ".stats"):
+            stats = json.load(open(out + ".stats"))
+        found = []
+        if os.path.exists(out):
+            found = [json.loads(l) for l in open(out) if l.strip()]
+        if rc not in (0, "timeout") and not found:
+            raise runner.HarnessError("atheris child failed (rc=%s): %s" % (rc, log[-1500:]))
+        ctx.evaluations += stats.get("execs", 0)
+        for k, v in stats.get("classes", {}).items():
+            ctx.cls("atheris:" + k, v)
+        for k, v in stats.get("known_hits", {}).items():
+            ctx.known_hits[k] += v
+        ctx.notes.setdefault("atheris", {})["execs"] = stats.get("execs", 0)
+        ctx.notes["atheris"]["reported"] = len(found)
+        for rec in found:
+            case = rec["case"]
+            ctx.evaluations += 1
+            try:
+                sub_soup(ctx, case)
+            except runner.KnownSkip:
+                continue
+            except runner.Violation as v:
+                runner.record_violation(ctx, "soup", case, v)
+                break
+            else:
+                ctx.notes["atheris"]["not_reproduced"] = ctx.notes["atheris"].get("not_reproduced", 0) + 1
+    finally:
+        shutil.rmtree(tmp, ignore_errors=True)
+        ctx.notes.setdefault("sub_wall_s", {})["atheris"] = round(time.time() - t0, 2)
+
+
+ATHERIS_VARIANTS = [
+    ("newick", {}), ("nexus", {}), ("nexus", {}),
+    ("phylip", {"data_type": "dna", "strict": False, "interleaved": False}),
+    ("phylip", {"data_type": "dna", "strict": True, "interleaved": False}),
+    ("phylip", {"data_type": "dna", "strict": False, "interleaved": True}),
+    ("phylip", {"data_type": "standard", "strict": True, "interleaved": True}),
+    ("fasta", {"data_type": "dna"}), ("fasta", {"data_type": "protein"}),
+]   # must list the same (schema, kwargs) as fuzz/c20_atheris.py VARIANTS, in the same order
+
+
+def _atheris_variant(schema, kwargs):
+    for i, (s, kw) in enumerate(ATHERIS_VARIANTS):
+        if s == schema and all(kwargs.get(k) == v for k, v in kw.items()):
+            return i
+    for i, (s, _) in enumerate(ATHERIS_VARIANTS):
+        if s == schema:
+            return i
+    return 0
+
+
 def run(ctx):
     warnings.simplefilter("ignore")
     if sys.getrecursionlimit() != 3000:
@@ -696,3 +791,7 @@ def run(ctx):
     deep = [{"kind": k, "depth": d, "schema": s} for s in ("newick", "nexus") for k in ("nest", "caterpillar", "open", "comments")
             for d in DEEP_DEPTHS]
     runner.run_items(ctx, "deep", deep, sub_deep)
+
+    # (5) thorough only: Atheris campaign with the same oracle
+    if tot.get("atheris_runs") and not ctx.violations:
+        run_atheris(ctx, per(tot["atheris_runs"]), corpus + generated[:40])
